@@ -1,8 +1,340 @@
-//! C12 — stub, to be written.
+//! C12: text, binary and node-list serialisation round-trip under any I/O chunking.
+//!
+//! Case kinds (inputs => observed):
+//!   C12.mem    <bdd>                       => <to_string> <hex to_bytes> <rt_text> <rt_bytes> <rt_nodes>   (1 / 0 / err / panic)
+//!   C12.wtext  <bdd> <script>              => <ok|err|panic> <hex of what reached the sink> <events consumed> <flushes>
+//!   C12.wbytes <bdd> <script>              => same
+//!   C12.rtext  <orig bdd|~> <hex> <script> => <ok|err|panic> <bdd|~> <events consumed> <sizes asked by std, one per read call>
+//!   C12.rbytes <orig bdd|~> <hex> <script> => same
+//!   C12.big    <n> <k> <seed>              => <size> <bytes len> <text len> <flags>   (all comparisons byte-exact inside Rust)
+//!   C12.wschars                            => every code point with char::is_whitespace
+//!   C12.parse  <u16|u32> <hex of the str>  => ok:<value> | err
 #[path = "../common.rs"]
 mod common;
+#[path = "../serial_io.rs"]
+mod serial_io;
+use biodivine_lib_bdd::*;
 use common::*;
+use serial_io::*;
+use std::io::{Read, Write};
 
-pub fn run(key: &str, _a: &[String], _out: &mut Out) { panic!("unknown key {}", key) }
-pub fn gen(_tier: Tier, _rng: &mut Rng64, _out: &mut Out) {}
+fn s(x: &str) -> String { x.to_string() }
+fn kind<T, E>(r: &Option<Result<T, E>>) -> &'static str {
+    match r { None => "panic", Some(Ok(_)) => "ok", Some(Err(_)) => "err" }
+}
+fn flag(b: bool) -> String { s(if b { "1" } else { "0" }) }
+
+pub fn run(key: &str, a: &[String], out: &mut Out) {
+    match key {
+        "C12.mem" => {
+            let t = parse_triples(&a[0]);
+            let b = bdd_exact(&t).expect("cannot build the Bdd value");
+            let text = catch(|| b.to_string());
+            let bytes = catch(|| b.to_bytes());
+            let rt_text = match &text { None => s("panic"), Some(x) => match catch(|| Bdd::from_string(x)) { None => s("panic"), Some(b2) => flag(b2 == b) } };
+            let rt_bytes = match &bytes { None => s("panic"), Some(x) => match catch(|| Bdd::from_bytes(&mut &x[..])) { None => s("panic"), Some(b2) => flag(b2 == b) } };
+            let rt_nodes = match catch(|| Bdd::from_nodes(&b.clone().to_nodes())) { None => s("panic"), Some(Err(_)) => s("err"), Some(Ok(b2)) => flag(b2 == b) };
+            out.case(key, a, &[text.unwrap_or(s("panic")), bytes.map(|x| hex(&x)).unwrap_or(s("panic")), rt_text, rt_bytes, rt_nodes]);
+        }
+        "C12.wtext" | "C12.wbytes" => {
+            let t = parse_triples(&a[0]);
+            let b = bdd_exact(&t).expect("cannot build the Bdd value");
+            let mut w = SWriter::new(&parse_script(&a[1]));
+            let r = catch(|| { let dw: &mut dyn Write = &mut w; if key == "C12.wtext" { b.write_as_string(dw) } else { b.write_as_bytes(dw) } });
+            out.case(key, a, &[s(kind(&r)), hex(&w.out), w.sp.to_string(), w.flushes.to_string()]);
+        }
+        "C12.rtext" | "C12.rbytes" => {
+            let data = unhex(&a[1]);
+            let mut rd = SReader::new(&data, &parse_script(&a[2]));
+            let (k, res) = if key == "C12.rtext" {
+                let r = catch(|| { let dr: &mut dyn Read = &mut rd; Bdd::read_as_string(dr) });
+                (kind(&r), r.and_then(|x| x.ok()))
+            } else {
+                let r = catch(|| { let dr: &mut dyn Read = &mut rd; Bdd::read_as_bytes(dr) });
+                (kind(&r), r.and_then(|x| x.ok()))
+            };
+            out.case(key, a, &[s(k), res.map(|b| fmt_bdd(&b)).unwrap_or(s("~")), rd.sp.to_string(), fmt_list(&rd.wants)]);
+        }
+        "C12.big" => {
+            let (n, k, seed): (usize, usize, u64) = (a[0].parse().unwrap(), a[1].parse().unwrap(), a[2].parse().unwrap());
+            let t = counter_triples(n, k);
+            let b = Bdd::from_nodes(&nodes_of(&t)).expect("counter diagram refused");
+            let mut rng = Rng64(seed);
+            let bytes = b.to_bytes();
+            let text = b.to_string().into_bytes();
+            let mut flags = String::new();
+            let mut push = |x: bool| flags.push(if x { '1' } else { '0' });
+            // byte-exact expected encodings by the harness's own encoders
+            let exp_bytes = encode_triples(&t);
+            push(bytes == exp_bytes);
+            push(text == fmt_triples64(&t).into_bytes());
+            push(catch(|| Bdd::from_bytes(&mut &bytes[..])).map(|x| x == b).unwrap_or(false));
+            push(catch(|| Bdd::from_string(std::str::from_utf8(&text).unwrap())).map(|x| x == b).unwrap_or(false));
+            push(catch(|| Bdd::from_nodes(&b.clone().to_nodes())).and_then(|x| x.ok()).map(|x| x == b).unwrap_or(false));
+            // chunked readers / writers (big pieces, interruptions, no failure)
+            for data_is_text in [false, true] {
+                let data = if data_is_text { &text } else { &bytes };
+                let sc = random_script(&mut rng, data.len(), 40, true, None);
+                let mut rd = SReader::new(data, &sc);
+                let r = catch(|| { let dr: &mut dyn Read = &mut rd; if data_is_text { Bdd::read_as_string(dr).ok() } else { Bdd::read_as_bytes(dr).ok() } });
+                push(r.flatten().map(|x| x == b).unwrap_or(false));
+                let sc = random_script(&mut rng, data.len(), 40, true, None);
+                let mut w = SWriter::new(&sc);
+                let r = catch(|| { let dw: &mut dyn Write = &mut w; if data_is_text { b.write_as_string(dw).is_ok() } else { b.write_as_bytes(dw).is_ok() } });
+                push(r == Some(true) && &w.out == data);
+                // a hard error somewhere in the middle is returned as Err
+                let pos = 1 + rng.below(20) as usize;
+                let sc = random_script(&mut rng, data.len(), 40, true, Some(pos));
+                let mut rd = SReader::new(data, &sc);
+                let r = catch(|| { let dr: &mut dyn Read = &mut rd; if data_is_text { Bdd::read_as_string(dr).is_err() } else { Bdd::read_as_bytes(dr).is_err() } });
+                push(r == Some(true));
+                let mut w = SWriter::new(&sc);
+                let r = catch(|| { let dw: &mut dyn Write = &mut w; if data_is_text { b.write_as_string(dw).is_err() } else { b.write_as_bytes(dw).is_err() } });
+                push(r == Some(true) && data.starts_with(&w.out));
+            }
+            out.case(key, a, &[t.len().to_string(), bytes.len().to_string(), text.len().to_string(), flags]);
+        }
+        "C12.wschars" => {
+            let v: Vec<usize> = (0..=0x10FFFFu32).filter_map(char::from_u32).filter(|c| c.is_whitespace()).map(|c| c as usize).collect();
+            out.case(key, a, &[fmt_list(&v)]);
+        }
+        "C12.parse" => {
+            let bytes = unhex(&a[1]);
+            let st = String::from_utf8(bytes).expect("C12.parse takes UTF-8");
+            let r = if a[0] == "u16" { catch(|| st.parse::<u16>().map(|x| x as u64).ok()) } else { catch(|| st.parse::<u32>().map(|x| x as u64).ok()) };
+            out.case(key, a, &[match r { None => s("panic"), Some(None) => s("err"), Some(Some(v)) => format!("ok:{}", v) }]);
+        }
+        _ => panic!("unknown key {}", key),
+    }
+}
+
+/// "exactly k of n" as a layered counter diagram (valid by level, not necessarily reduced): built by the
+/// harness itself so that diagrams with more than 65 536 nodes are cheap.
+fn counter_triples(n: usize, k: usize) -> Vec<(u64, u64, u64)> {
+    use std::collections::HashMap;
+    let mut t: Vec<(u64, u64, u64)> = vec![(n as u64, 0, 0), (n as u64, 1, 1)];
+    let mut idx: HashMap<(usize, usize), u64> = HashMap::new();
+    // state (i, c): deciding variable i having seen c ones; feasible iff c <= k and k - c <= n - i
+    for i in (0..n).rev() {
+        for c in 0..=k.min(i) {
+            if k - c > n - i { continue; }
+            let child = |c2: usize, idx: &HashMap<(usize, usize), u64>| -> u64 {
+                if c2 > k || k - c2 > n - (i + 1) { 0 } else if i + 1 == n { if c2 == k { 1 } else { 0 } } else { idx[&(i + 1, c2)] }
+            };
+            let (lo, hi) = (child(c, &idx), child(c + 1, &idx));
+            t.push((i as u64, lo, hi));
+            idx.insert((i, c), t.len() as u64 - 1);
+        }
+    }
+    t
+}
+
+/// the harness's own binary encoder: u16 + u32 + u32, little endian
+fn encode_triples(t: &[(u64, u64, u64)]) -> Vec<u8> {
+    let mut o = Vec::with_capacity(t.len() * 10);
+    for (v, l, h) in t { o.extend_from_slice(&(*v as u16).to_le_bytes()); o.extend_from_slice(&(*l as u32).to_le_bytes()); o.extend_from_slice(&(*h as u32).to_le_bytes()); }
+    o
+}
+
+/// all compositions of `len` into pieces of size 1..=3, as scripts
+fn compositions(len: usize) -> Vec<Vec<Ev>> {
+    fn go(rem: usize, cur: &mut Vec<Ev>, out: &mut Vec<Vec<Ev>>) {
+        if rem == 0 { out.push(cur.clone()); return; }
+        for p in 1..=3.min(rem) { cur.push(Ev::Give(p)); go(rem - p, cur, out); cur.pop(); }
+    }
+    let mut out = vec![];
+    go(len, &mut vec![], &mut out);
+    out
+}
+fn count_compositions(len: usize) -> u64 {
+    let mut c = vec![1u64, 1, 2];
+    for i in 3..=len { let x = c[i - 1].saturating_add(c[i - 2]).saturating_add(c[i - 3]); c.push(x); }
+    c[len]
+}
+/// a random script for `len` bytes: about `events` give-events (pieces of random size covering the data),
+/// interruptions sprinkled in, optionally a hard error as event number `fail_at`
+fn random_script(rng: &mut Rng64, len: usize, events: usize, interrupts: bool, fail_at: Option<usize>) -> Vec<Ev> {
+    let mut sc = vec![];
+    let avg = (len / events.max(1)).max(1);
+    let mut covered = 0usize;
+    while covered < len && sc.len() < 4 * events {
+        if interrupts && rng.chance(1, 6) { sc.push(Ev::Intr); continue; }
+        let k = 1 + rng.below(2 * avg as u64) as usize;
+        sc.push(Ev::Give(k));
+        covered += k;
+    }
+    if let Some(p) = fail_at { let p = p.min(sc.len()); sc.truncate(p); sc.push(Ev::Fail); }
+    sc
+}
+fn small_script(rng: &mut Rng64, len: usize, fault: u64) -> Vec<Ev> {
+    // pieces 1..=3 covering `len` bytes; fault: 0 none, 1 interruptions, 2 one hard error, 3 one give-0
+    let mut sc = vec![];
+    let mut covered = 0;
+    while covered < len {
+        if fault == 1 && rng.chance(1, 4) { sc.push(Ev::Intr); continue; }
+        let k = 1 + rng.below(3) as usize;
+        sc.push(Ev::Give(k));
+        covered += k;
+    }
+    if fault == 1 && rng.bool() { sc.push(Ev::Intr); }
+    if fault >= 2 {
+        let p = rng.below(sc.len() as u64 + 1) as usize;
+        sc.insert(p, if fault == 2 { Ev::Fail } else { Ev::Give(0) });
+    }
+    sc
+}
+
+const WS: [u32; 25] = [0x09, 0x0A, 0x0B, 0x0C, 0x0D, 0x20, 0x85, 0xA0, 0x1680, 0x2000, 0x2001, 0x2002, 0x2003, 0x2004, 0x2005, 0x2006,
+    0x2007, 0x2008, 0x2009, 0x200A, 0x2028, 0x2029, 0x202F, 0x205F, 0x3000];
+/// the harness's own text form with whitespace inserted around separators (and, with `anywhere`, between digits)
+fn with_whitespace(rng: &mut Rng64, text: &str, anywhere: bool) -> String {
+    let chars: Vec<char> = text.chars().collect();
+    let mut o = String::new();
+    let ws = |rng: &mut Rng64, o: &mut String| { for _ in 0..(1 + rng.below(2)) { o.push(char::from_u32(*rng.pick(&WS)).unwrap()); } };
+    if rng.bool() { ws(rng, &mut o); }
+    for (i, c) in chars.iter().enumerate() {
+        let sep = *c == '|' || *c == ',';
+        let prev_sep = i > 0 && (chars[i - 1] == '|' || chars[i - 1] == ',');
+        if (sep || prev_sep || anywhere) && rng.chance(1, 3) { ws(rng, &mut o); }
+        o.push(*c);
+    }
+    if rng.bool() { ws(rng, &mut o); }
+    o
+}
+
+struct Budget { exhaustive_cap: u64, random_per: u64 }
+
+/// all reader/writer cases for one value
+fn cases_for(text: &str, rng: &mut Rng64, out: &mut Out, bud: &Budget, faults: bool) {
+    let b = bdd_exact(&parse_triples(text)).expect("value");
+    let tbytes = text.as_bytes().to_vec();
+    let bbytes = encode_triples(&parse_triples(text));
+    let _ = &b;
+    let orig = s(text);
+    run("C12.mem", &[orig.clone()], out);
+    for (rk, wk, data) in [("C12.rtext", "C12.wtext", &tbytes), ("C12.rbytes", "C12.wbytes", &bbytes)] {
+        let h = hex(data);
+        run(rk, &[orig.clone(), h.clone(), s("~")], out);
+        run(wk, &[orig.clone(), s("~")], out);
+        let len = data.len();
+        if len > 0 && count_compositions(len) <= bud.exhaustive_cap {
+            for sc in compositions(len) {
+                let f = fmt_script(&sc);
+                run(rk, &[orig.clone(), h.clone(), f.clone()], out);
+                run(wk, &[orig.clone(), f], out);
+            }
+        } else {
+            for _ in 0..bud.random_per {
+                run(rk, &[orig.clone(), h.clone(), fmt_script(&small_script(rng, len, 0))], out);
+                run(wk, &[orig.clone(), fmt_script(&small_script(rng, len, 0))], out);
+            }
+        }
+        if faults {
+            // Interrupted / hard error / give-0 at every position of a base chunking
+            for base_piece in [1usize, 2] {
+                let base: Vec<Ev> = (0..((len + base_piece - 1) / base_piece)).map(|_| Ev::Give(base_piece)).collect();
+                for (ev, step) in [(Ev::Intr, 1usize), (Ev::Fail, 1), (Ev::Give(0), 2)] {
+                    let mut p = 0;
+                    while p <= base.len() {
+                        let mut sc = base.clone();
+                        sc.insert(p, ev);
+                        let f = fmt_script(&sc);
+                        run(rk, &[orig.clone(), h.clone(), f.clone()], out);
+                        run(wk, &[orig.clone(), f], out);
+                        p += step * (if len > 40 { 1 + len / 40 } else { 1 });
+                    }
+                }
+            }
+        } else {
+            for fault in 1..=3 {
+                run(rk, &[orig.clone(), h.clone(), fmt_script(&small_script(rng, len, fault))], out);
+                run(wk, &[orig.clone(), fmt_script(&small_script(rng, len, fault))], out);
+            }
+        }
+    }
+    // whitespace around separators, ASCII and non-ASCII, delivered in small pieces (cuts inside UTF-8 sequences)
+    for i in 0..bud.random_per.min(4) {
+        let w = with_whitespace(rng, text, i == 3);
+        let wb = w.as_bytes();
+        run("C12.rtext", &[orig.clone(), hex(wb), s("~")], out);
+        let fault = rng.below(3);
+        run("C12.rtext", &[orig.clone(), hex(wb), fmt_script(&small_script(rng, wb.len(), fault))], out);
+    }
+}
+
+pub fn gen(tier: Tier, rng: &mut Rng64, out: &mut Out) {
+    let thorough = tier == Tier::Thorough;
+    run("C12.wschars", &[], out);
+    // --- the decimal grammar of str::parse::<u16/u32>
+    let toks = ["", "+", "-", "+5", "-5", "++5", "+-5", "5+", "05", "0005", "+0", "-0", "0", "7", "65535", "65536", "+65535", "065535",
+        "4294967295", "4294967296", "+4294967295", "42949672950", "000000000000000000000000004294967295", "18446744073709551615",
+        "18446744073709551616", "99999999999999999999999999", " 5", "5 ", "1_0", "0x10", "1e3", "١", "５", "1٣", "a", "1a", ",", "|", "12345", "99999", "100000", "655350", "6553", "1.0"];
+    for t in toks { for ty in ["u16", "u32"] { run("C12.parse", &[s(ty), hex(t.as_bytes())], out); } }
+    for _ in 0..(if thorough { 20000 } else { 600 }) {
+        let len = rng.below(13) as usize;
+        let alphabet = ['0', '1', '2', '4', '5', '6', '9', '9', '3', '+', '-', ' ', 'a'];
+        let st: String = (0..len).map(|_| { let m = if rng.chance(9, 10) { 9 } else { 13 }; alphabet[rng.below(m) as usize] }).collect();
+        run("C12.parse", &[s(*rng.pick(&["u16", "u32"])), hex(st.as_bytes())], out);
+    }
+    // --- every function over n <= 3 variables; exhaustive chunkings for the short ones
+    let small = Budget { exhaustive_cap: if thorough { 6000 } else { 300 }, random_per: if thorough { 12 } else { 4 } };
+    run("C12.mem", &[s("|")], out);
+    for n in 0..=3usize {
+        let count = 1u64 << (1u64 << n);
+        for t in 0..count {
+            let text = fmt_triples(&canon_triples(n, &tt_from_index(n, t)));
+            let faults = n <= 2 || thorough || t % 16 == 5;
+            cases_for(&text, rng, out, &small, faults);
+        }
+    }
+    // --- random functions, non-canonical variants
+    let rnd = Budget { exhaustive_cap: 0, random_per: if thorough { 6 } else { 2 } };
+    for _ in 0..(if thorough { 3000 } else { 150 }) {
+        let n = 4 + rng.below(5) as usize;
+        let mut b = random_bdd(rng, n);
+        if rng.chance(1, 3) { b = noncanon_variant(rng, &b); }
+        cases_for(&fmt_bdd(&b), rng, out, &rnd, false);
+    }
+    // --- few-node diagrams with 16-bit variables (up to 65 534) and level gaps
+    for _ in 0..(if thorough { 2000 } else { 120 }) {
+        let nv: u64 = *rng.pick(&[65535u64, 65534, 65535, 40000, 300, 257, 256]);
+        let depth = 1 + rng.below(5);
+        let mut vars: Vec<u64> = (0..depth).map(|_| match rng.below(4) { 0 => nv - 1 - rng.below(3.min(nv - 1)), 1 => rng.below(nv), 2 => 255 + rng.below(3), _ => rng.below(1000.min(nv)) }).collect();
+        vars.sort(); vars.dedup(); vars.reverse();
+        let mut t = vec![(nv, 0, 0), (nv, 1, 1)];
+        for v in vars {
+            let top = t.len() as u64 - 1;
+            let other = rng.below(t.len() as u64);
+            t.push(if rng.bool() { (v, top, other) } else { (v, other, top) });
+        }
+        cases_for(&fmt_triples64(&t), rng, out, &rnd, false);
+    }
+    // --- arbitrary node arrays (values only the text reader produces): full-range fields
+    for _ in 0..(if thorough { 2000 } else { 120 }) {
+        let len = 1 + rng.below(4);
+        let big = |rng: &mut Rng64, max: u64| -> u64 { match rng.below(4) { 0 => max, 1 => max - rng.below(3), 2 => rng.below(max + 1), _ => rng.below(300) } };
+        let t: Vec<(u64, u64, u64)> = (0..len).map(|_| (big(rng, 65535), big(rng, 4294967295), big(rng, 4294967295))).collect();
+        cases_for(&fmt_triples64(&t), rng, out, &rnd, false);
+    }
+    // --- diagrams with more than 256 nodes (2-byte pointers) through the full pipeline
+    let mids: &[(usize, usize)] = if thorough { &[(50, 25), (40, 7), (64, 32), (30, 15)] } else { &[(36, 18)] };
+    for (n, k) in mids {
+        let set = BddVariableSet::new_anonymous(*n as u16);
+        let b = set.mk_sat_exactly_k(*k, &set.variables());
+        let text = fmt_bdd(&b);
+        let (tb, bb) = (text.as_bytes().to_vec(), encode_triples(&triples_of(&b)));
+        run("C12.mem", &[text.clone()], out);
+        for (rk, wk, data) in [("C12.rtext", "C12.wtext", &tb), ("C12.rbytes", "C12.wbytes", &bb)] {
+            for fail in [None, Some(7usize), None] {
+                let sc = fmt_script(&random_script(rng, data.len(), 30, true, fail));
+                run(rk, &[text.clone(), hex(data), sc.clone()], out);
+                run(wk, &[text.clone(), sc], out);
+            }
+        }
+    }
+    // --- more than 65 536 nodes (3-byte pointers): comparisons inside Rust
+    let bigs: &[(usize, usize)] = if thorough { &[(600, 300), (520, 260), (1200, 90), (800, 400)] } else { &[(530, 260), (60, 30)] };
+    for (n, k) in bigs { run("C12.big", &[n.to_string(), k.to_string(), rng.next().to_string()], out); }
+}
+
 fn main() { harness_main(gen, run) }
